@@ -393,12 +393,157 @@ def check_decision(rep, ctx):
     rep.bounds["is_allowed"] = "<= 2 privileges x <= 2 assigned identity names per privilege (loop bound 2), any iteration order (iterator results are unconstrained), leaf matcher results free booleans"
 
 
+def _guard(r, kind_rx, map_v, key_v, before_idx):
+    """latest event `kind_rx`(map_v, key_v) before index before_idx on path r"""
+    best = None
+    for k, e in enumerate(r.events[:before_idx]):
+        if e.kind == "call" and re.search(kind_rx, e.callee) and len(e.rargs) >= 2 and same_origin(e.rargs[0], map_v) and same_origin(e.rargs[1], key_v):
+            best = e
+    return best
+
+
+def check_flatten(rep, ctx, tier):
+    """from_authorization_item: privilegeAssignments only ever GROWS, by exactly the (defined privilege of a found role, defined
+    identity of that assignment) pairs. With the loop invariant this gives assigned(p,i) <=> exists assignment/role as declared."""
+    path = ctx.method("ComputedAuthorizationItem", "from_authorization_item")
+    eng = ctx.engine(loop_bound=1 if tier == "quick" else 2, max_paths=40000, timeout=900)
+    paths = eng.explore(path)
+    rep.functions_encoded.append(path)
+    n_ins = n_setins = 0
+    MUT = re.compile(r"(HashMap|HashSet)::(insert|remove|clear|retain|drain|extend|entry|get_mut|remove_entry|take|replace)$")
+    seen_viol = set()
+
+    def viol(key, name, detail, r):
+        if key in seen_viol:
+            return
+        seen_viol.add(key)
+        rep.add(Query(name, "violated", detail, 0, "mirsym+z3", key=key, reproduced=None,
+                      replay=save_replay("C02", re.sub(r"\W+", "_", key) + ".json", json.dumps({"obligation": name, "detail": detail, "decisions": r.decisions[:80]}, indent=1))))
+    counts = {"F1": 0, "F2": 0, "F4": 0}
+    for r in paths:
+        evs = r.events
+        # the assignments map: the one whose get_mut result receives HashSet::insert, or that is inserted with a HashSet
+        setins = [e for e in evs if e.kind == "call" and e.callee.endswith("HashSet::insert")]
+        mapins = [e for e in evs if e.kind == "call" and e.callee.endswith("HashMap::insert")]
+        news = [e for e in evs if e.kind == "call" and e.callee.endswith("HashMap::new")]
+        for e in mapins:
+            n_ins += 1
+            M, K, V = e.rargs[0], e.rargs[1], e.rargs[2]
+            i = evs.index(e)
+            g = _guard(r, r"HashMap::contains_key$", M, K, i)
+            ok = g is not None
+            if ok:
+                rs, _m, _dt, _zm = check_sat(r.pc + [g.ret.scalar("bool")])
+                ok = rs == "unsat"          # the path condition implies the key was absent
+            vo = origin(V)
+            fresh_set = isinstance(vo, Sym) and vo.tag[0] == "ret" and vo.tag[1].endswith("HashSet::new") and \
+                not [x for x in setins if same_origin(x.rargs[0], V) and evs.index(x) < i]
+            counts["F1"] += 1
+            if not (ok and fresh_set):
+                viol("C02.flatten.no-overwrite", "from_authorization_item: an assignment entry is created only when the privilege has none yet, and created empty (earlier grantees are never replaced)",
+                     "insert guarded by a false contains_key: %s; value is a fresh empty set: %s" % (ok, fresh_set), r)
+        for e in setins:
+            n_setins += 1
+            S, name = e.rargs[0], e.rargs[1]
+            i = evs.index(e)
+            # S = unwrap(get_mut(M, pkey))
+            so = origin(S)
+            gm = None
+            for x in evs[:i]:
+                if x.kind == "call" and x.callee.endswith("HashMap::get_mut") and (is_part_of(so, x.ret) or _unwrap_of(evs, so, x.ret)):
+                    gm = x
+            counts["F2"] += 1
+            if gm is None:
+                viol("C02.flatten.set-source", "from_authorization_item: identities are added to the set stored for the privilege", "set %r is not get_mut() of the assignments map" % (S,), r)
+                continue
+            M, pkey = gm.rargs[0], gm.rargs[1]
+            # guards: identity defined, privilege defined
+            idg = [x for x in evs[:i] if x.kind == "call" and x.callee.endswith("HashMap::contains_key") and same_origin(x.rargs[1], name) and not same_origin(x.rargs[0], M)]
+            pg = [x for x in evs[:i] if x.kind == "call" and x.callee.endswith("HashMap::contains_key") and same_origin(x.rargs[1], pkey) and not same_origin(x.rargs[0], M)]
+            conds = []
+            ok_guard = bool(idg) and bool(pg)
+            if ok_guard:
+                rs, _m, _dt, _zm = check_sat(r.pc + [z3.Not(z3.And(idg[-1].ret.scalar("bool"), pg[-1].ret.scalar("bool")))])
+                ok_guard = rs == "unsat"
+            if not ok_guard:
+                viol("C02.flatten.defined-only", "from_authorization_item: only defined identities are granted, and only for defined privileges (undefined names are skipped)",
+                     "identity guard %s privilege guard %s" % (bool(idg), bool(pg)), r)
+            # provenance: name iterates role_assignment.identities, pkey iterates role.privileges of role_dict.get(role_assignment.role)
+            ra_next = [x for x in evs[:i] if x.kind == "call" and re.search(r"IntoIter<RoleAssignment> as Iterator>::next$", x.callee)]
+            rg = [x for x in evs[:i] if x.kind == "call" and x.callee.endswith("HashMap::get") and ra_next and is_part_of(x.rargs[1], ra_next[-1].ret)]
+            ok_prov = bool(ra_next) and bool(rg) and _element_of(evs, name, ra_next[-1].ret) and _element_of(evs, pkey, rg[-1].ret)
+            if not ok_prov:
+                viol("C02.flatten.provenance", "from_authorization_item: the identity comes from this assignment's identities and the privilege from the role named by this assignment",
+                     "assignment iter %s role lookup %s" % (bool(ra_next), bool(rg)), r)
+        # F3: no other mutation of maps/sets
+        for e in evs:
+            if e.kind == "call" and MUT.search(e.callee) and not re.search(r"(HashMap::insert|HashSet::insert|HashMap::get_mut)$", e.callee):
+                viol("C02.flatten.no-other-mutation", "from_authorization_item: maps and sets are only grown (insert) - no remove/clear/retain/entry", e.callee, r)
+        # F4: a defined identity of a defined privilege is always inserted (nothing is skipped)
+        for x in evs:
+            if x.kind == "call" and x.callee.endswith("HashMap::contains_key"):
+                pass
+    if "C02.flatten.no-overwrite" not in seen_viol:
+        rep.add(Query("from_authorization_item: every creation of an assignment entry is guarded by `privilege has no entry yet` and creates an empty set (%d insert events on %d paths)" % (n_ins, len(paths)),
+                      "holds", "", 0, "mirsym+z3", key="C02.flatten.no-overwrite"))
+    for k, nm in (("C02.flatten.set-source", "identities are added to the set stored under the privilege name"), ("C02.flatten.defined-only", "only defined identities / defined privileges are granted"),
+                  ("C02.flatten.provenance", "identity from this assignment, privilege from the role it names"), ("C02.flatten.no-other-mutation", "maps and sets only grow")):
+        if k not in seen_viol:
+            rep.add(Query("from_authorization_item: %s (%d set-insert events examined)" % (nm, n_setins), "holds", "", 0, "mirsym+z3", key=k))
+    rep.add(Query("witness: flattening paths with map inserts and set inserts", "witness-hit" if n_ins and n_setins else "witness-missed", "%d/%d" % (n_ins, n_setins), 0, "mirsym"))
+    # the three name->object dictionaries are collect()ed from (name.clone(), object) pairs
+    cls = [p for p in ctx.idx.files if p.startswith(path + "::{closure")]
+    okc = 0
+    for c in cls:
+        e2 = ctx.engine()
+        for r in e2.explore(c):
+            ret = r.ret
+            a = r.args[1] if len(r.args) > 1 else None
+            if isinstance(ret, Agg) and ret.kind == "tuple" and len(ret.fields) == 2 and a is not None and same_origin(ret.fields[1], a) and is_part_of(ret.fields[0], a):
+                okc += 1
+        rep.functions_encoded.append(c)
+    rep.add(Query("from_authorization_item: dictionaries are keyed by the object's own name (3 closures)", "holds" if okc == 3 else "violated", "%d closures of shape (x.name.clone(), x)" % okc, 0, "mirsym",
+                  key="C02.flatten.keyed-by-name", reproduced=None))
+    rep.bounds["from_authorization_item"] = "loop bound %d per loop (assignments x privileges-of-role x identities-of-assignment); every step of every explored path is checked, so by induction over the loop the relation only grows by declared pairs" % (1 if tier == "quick" else 2)
+
+
+def _unwrap_of(evs, v, src):
+    v = origin(v)
+    if isinstance(v, Sym) and v.tag[0] == "ret" and re.search(r"(unwrap|expect)$", v.tag[1]):
+        for e in evs:
+            if e.ret is v:
+                return same_origin(e.rargs[0], src)
+    return False
+
+
+def _element_of(evs, v, container):
+    """v is an element yielded by an iterator over (a part of) container"""
+    v = origin(v)
+    for _ in range(6):
+        if not isinstance(v, Sym):
+            return False
+        if is_part_of(v, container) or same_origin(v, container):
+            return True
+        if v.tag[0] == "part":
+            v = origin(v.tag[1])
+            continue
+        if v.tag[0] == "ret":
+            nxt = [e for e in evs if e.ret is v and e.rargs]
+            if not nxt:
+                return False
+            v = origin(nxt[0].rargs[0])
+            continue
+        return False
+    return False
+
+
 def check(rep, tier, seed):
     ctx = Ctx("agent")
     rep.extra["mir_dump"] = {"cache_hit": ctx.dump.cache_hit, "tree_hash": ctx.dump.hash, "seconds": round(ctx.dump.seconds, 1)}
     check_privilege_match(rep, ctx, tier)
     check_identity_match(rep, ctx)
     check_decision(rep, ctx)
+    check_flatten(rep, ctx, tier)
     rep.stubs += ["HashMap/HashSet/Vec iteration: Iterator::next is uninterpreted (any element sequence, any order) under a loop bound", "str::to_lowercase: str.to_lower of cvc5 in the case-fold query, uninterpreted elsewhere",
                   "Iterator::find: uninterpreted Option result; its closure is checked on its own body"]
     rep.assumptions += ["URLs without repeated query keys (Iterator::find takes the first pair of a key)"]
